@@ -180,7 +180,8 @@ def run(ctx):
             tot = np.trapezoid(y, x)
             u = np.concatenate([rng.uniform(0, 1, 40), [0.0, 1e-12, 0.5]])
             s = li.solve(u)
-            in_range = np.all(s >= x[0] - 1e-9) and np.all(s <= x[-1] + 1e-9) and np.all(np.isfinite(s))
+            span = x[-1] - x[0]
+            in_range = np.all(s >= x[0] - 1e-7 * span) and np.all(s <= x[-1] + 1e-7 * span) and np.all(np.isfinite(s))  # rounding of the quadratic root
             back = li.integral(s)
             d_inv = float(np.max(np.abs(back - u * tot)) / tot)
             us = np.sort(u)
